@@ -452,9 +452,14 @@ class RefDevice:
         if d.get("raw") is not None:
             self._fire("raw_reply")
             resp_pkts = [bytes.fromhex(d["raw"])]
+        orig0 = resp_pkts[0] if resp_pkts else None
         if d.get("mutate") is not None and resp_pkts:
             resp_pkts[0] = self._mutate(resp_pkts[0], d["mutate"])
         msgs.extend(resp_pkts)
+        if d.get("authentic_after") and orig0 is not None:
+            # the unit repeats the packet right away, intact this time
+            msgs.append(orig0)
+            self._fire("authentic_copy_right_behind_altered_packet")
         if resp_pkts:
             self.last_response[conn.cid] = resp_pkts[-1]
         for _ in range(d.get("dup", 0)):
@@ -638,6 +643,13 @@ class RefDevice:
             page = 0
             if len(body) >= 3 and body[1] == 0x01 and body[2] == 0x01:
                 page = 1
+                if bytes(body[:4]) != b"\xb5\x01\x01\x01":
+                    # the documented selector of the additional page is b5 01 01 01: a unit answers nothing else
+                    self.violations.append(("b5", "additional-page query is not b5 01 01 01", body))
+                    return []
+            elif bytes(body[:3]) != b"\xb5\x01\x00":
+                self.violations.append(("b5", "capability query is not b5 01 00", body))
+                return []
             self.b5_queries = getattr(self, "b5_queries", []) + [bytes(body)]
             if page < len(self.caps_pages):
                 recs, add = self.caps_pages[page]
@@ -653,6 +665,10 @@ class RefDevice:
             items = []
             for pid in ids:
                 items.append((pid, 0x00, acmodel.prop_store_value_for_read(pid, self.props)))
+            for pos, pid, val in getattr(self, "volunteered_props", ()):
+                # properties the unit reports without being asked (ids this client knows of but does not use)
+                items.insert(pos % (len(items) + 1), (pid, 0x00, bytes(val)))
+                self._fire("unrequested_property_in_reply")
             return [self.make_frame(acmodel.build_prop_reply(0xB1, items), FT_QUERY)]
         if cmd == 0xB0 and ftype == FT_CONTROL:
             try:
